@@ -136,3 +136,134 @@ func ZZ_C07_bmc() {
 		}
 	}
 }
+
+func zzDetConf(W, H, e, g int, dyn bool, tag string) config.ThermalMotion {
+	T, D := zzU16(tag+"T", 0), zzU16(tag+"D", 0)
+	C := zzInt(tag+"C", 0)
+	zzAssume(1 <= C && C < 1<<31)
+	conf := config.ThermalMotion{TempThresh: T, DeltaThresh: D, CountThresh: C, FrameCompareGap: g,
+		UseOneDiffOnly: zzBool(tag+"oneDiff", 0), WarmerOnly: zzBool(tag+"warmer", 0), EdgePixels: e, DynamicThreshold: dyn}
+	if dyn {
+		conf.TempThreshMin, conf.TempThreshMax = zzU16(tag+"Tmin", 0), zzU16(tag+"Tmax", 0)
+	}
+	return conf
+}
+
+func zzInterior(x, y, W, H, e int) bool { return e <= x && x < W-e && e <= y && y < H-e }
+
+// zzSameOutcome asserts that two detectors fed (by construction) equivalent
+// streams agree, with per-pixel helper lemmas on their diff frames.
+func zzSameOutcome(dA, dB *motionDetector, gotA, gotB bool, W, H, e int, dyn bool, label string) {
+	dfA := dA.diffFrames.frames[(dA.diffFrames.currentIndex+1)%2]
+	dfB := dB.diffFrames.frames[(dB.diffFrames.currentIndex+1)%2]
+	if dyn {
+		zzAssert(dA.tempThresh == dB.tempThresh, label+": same dynamic threshold")
+		for y := e; y < H-e; y++ {
+			for x := e; x < W-e; x++ {
+				zzAssert(dA.background.Pix[y][x] == dB.background.Pix[y][x], label+": same background interior")
+			}
+		}
+	}
+	for y := e; y < H-e; y++ {
+		for x := e; x < W-e; x++ {
+			zzLemma(dfA.Pix[y][x] == dfB.Pix[y][x], "diff frames agree on the interior")
+		}
+	}
+	zzAssert(gotA == gotB, label+": same detection result")
+}
+
+// ZZ_C08_bmc: self-composition. CLAIM 1: streams differ only in border pixels
+// (fixed or dynamic threshold); CLAIM 2: fixed threshold, streams differ only at
+// interior pixels where both values are <= temp-thresh.
+func ZZ_C08_bmc() {
+	W, H, e, g, F := zzParam("W"), zzParam("H"), zzParam("e"), zzParam("g"), zzParam("F")
+	dyn, claim, pv := zzParam("DYN") == 1, zzParam("CLAIM"), zzParam("PV")
+	cam := zzCam{W, H, 1}
+	conf := zzDetConf(W, H, e, g, dyn, "")
+	dA, dB := NewMotionDetector(conf, pv, cam), NewMotionDetector(conf, pv, cam)
+	for t := 0; t < F; t++ {
+		fA, fB := cptvframe.NewFrame(cam), cptvframe.NewFrame(cam)
+		on, last := zzI64("timeOn", t), zzI64("lastFFC", t)
+		zzAssume(0 <= last && last <= on && on < 1<<60)
+		fA.Status.TimeOn, fA.Status.LastFFCTime = time.Duration(on), time.Duration(last)
+		fB.Status = fA.Status
+		for y := 0; y < H; y++ {
+			for x := 0; x < W; x++ {
+				i := (t*H+y)*W + x
+				a := zzU16("a.p", i)
+				b := a
+				if !zzInterior(x, y, W, H, e) {
+					if claim == 1 {
+						b = zzU16("b.p", i)
+					}
+				} else if claim == 2 {
+					if zzBool("cold", i) {
+						b = zzU16("b.p", i)
+						zzAssume(a <= conf.TempThresh && b <= conf.TempThresh)
+					}
+				}
+				fA.Pix[y][x], fB.Pix[y][x] = a, b
+			}
+		}
+		gotA, gotB := dA.Detect(fA), dB.Detect(fB)
+		zzSameOutcome(dA, dB, gotA, gotB, W, H, e, dyn, "C08")
+	}
+	zzReach("end")
+}
+
+// ZZ_C09_bmc: PRE clean frames whose content differs between detectors A and B,
+// then L frames identical in both whose FFC pattern is the bit mask PAT (bit i:
+// frame PRE+i is within 10 s of an FFC), or (RESET=1) a camera reset before frame PRE.
+func ZZ_C09_bmc() {
+	W, H, e, g := zzParam("W"), zzParam("H"), zzParam("e"), zzParam("g")
+	dyn, pv := zzParam("DYN") == 1, zzParam("PV")
+	PRE, L, PAT, RESET := zzParam("PRE"), zzParam("L"), zzParam("PAT"), zzParam("RESET") == 1
+	cam := zzCam{W, H, 1}
+	conf := zzDetConf(W, H, e, g, dyn, "")
+	dA, dB := NewMotionDetector(conf, pv, cam), NewMotionDetector(conf, pv, cam)
+	prevAffected := false
+	passed := false // an FFC-affected frame (or the reset) has been seen
+	for t := 0; t < PRE+L; t++ {
+		fA, fB := cptvframe.NewFrame(cam), cptvframe.NewFrame(cam)
+		affected := t >= PRE && !RESET && (PAT>>uint(t-PRE))&1 == 1
+		on, last := zzI64("timeOn", t), zzI64("lastFFC", t)
+		zzAssume(0 <= last && last <= on && on < 1<<60)
+		if affected {
+			zzAssume(on-last < int64(10*time.Second))
+		} else {
+			zzAssume(on-last >= int64(10*time.Second))
+		}
+		fA.Status.TimeOn, fA.Status.LastFFCTime = time.Duration(on), time.Duration(last)
+		fB.Status = fA.Status
+		for y := 0; y < H; y++ {
+			for x := 0; x < W; x++ {
+				i := (t*H+y)*W + x
+				a := zzU16("a.p", i)
+				b := a
+				if t < PRE {
+					b = zzU16("b.p", i)
+				}
+				fA.Pix[y][x], fB.Pix[y][x] = a, b
+			}
+		}
+		if RESET && t == PRE {
+			dA.Reset(cam)
+			dB.Reset(cam)
+			passed = true
+		}
+		gotA, gotB := dA.Detect(fA), dB.Detect(fB)
+		if affected || prevAffected {
+			zzAssert(!gotA && !gotB, "C09: no motion reported within 10 s after an FFC nor on the frame directly following")
+		}
+		if affected {
+			passed = true
+		}
+		if passed && !affected && t >= PRE {
+			// from the first clean frame after the period / reset on, results do not
+			// depend on anything seen before it
+			zzSameOutcome(dA, dB, gotA, gotB, W, H, e, dyn, "C09")
+		}
+		prevAffected = affected
+	}
+	zzReach("end")
+}
